@@ -366,6 +366,9 @@ func judgeC15(c c15Case) (string, string) {
 		return "overlay-differs", fmt.Sprintf("destination is %s, overlay model gives %s", shapeOf(after), shapeOf(want))
 	}
 	// repeating the copy: again the model, and nothing changes when the targets are the same
+	if argTouchesSymlink(after, c.DstArg) {
+		return "", "" // the destination argument now runs through a link the first copy put there: C14's subject
+	}
 	want2, cf2, _ := copyModel(modelCase, after)
 	err2 := runCopy(c, srcDir, dstDir)
 	after2, _ := fsmodel.Snapshot(dstDir)
@@ -512,6 +515,27 @@ func runC15(r *evid.Run) {
 							continue
 						}
 						cases = append(cases, c15Case{Src: fl, Dst: d, SrcArg: sa, DstArg: da, DirC: o&1 != 0, Repl: o&2 != 0, Follow: true})
+					}
+				}
+			}
+		}
+	}
+	// a top-level source that is neither a regular file nor a directory (a link copied as a link, a fifo): it lands
+	// inside an existing directory like any other non-directory
+	{
+		T := fsmodel.T0
+		for _, sn := range []fsmodel.Node{{Path: "x", Kind: fsmodel.Fifo, Perm: 0644, Mtime: T}, {Path: "x", Kind: fsmodel.Symlink, Perm: 0777, Mtime: T, Link: "t0"}} {
+			st := fsmodel.Tree{sn, {Path: "w", Kind: fsmodel.File, Perm: 0644, Mtime: T + 1, Data: []byte("S:w")}}
+			st.Sort()
+			for _, d := range dsts {
+				for _, sa := range []string{"x", "*"} {
+					for _, da := range dstArgs {
+						for o := 0; o < 4; o++ {
+							if argTouchesSymlink(d, da) {
+								continue
+							}
+							cases = append(cases, c15Case{Src: st, Dst: d, SrcArg: sa, DstArg: da, DirC: o&1 != 0, Repl: o&2 != 0, Wild: hasWild(sa)})
+						}
 					}
 				}
 			}
